@@ -92,6 +92,7 @@ struct vcpu {
         uint64_t n_xgetbv_no_osxsave;   /* xgetbv executed while virtual OSXSAVE=0 (would #UD) */
 };
 extern struct vcpu isal_verif_vcpu;
+extern void (*isal_verif_hook_cb)(void *resolver_pc);        /* optional observer called on every virtual cpuid/xgetbv (all registers preserved around it) */
 /* named configurations */
 int vcpu_set(const char *name);  /* "host" (pass-through) base sse sse_ni avx avx2 avx512 avx512_g2 avx512_ni avx512_g2_ni avoton ; -1 if unknown */
 extern const char *const vcpu_names[];
